@@ -562,12 +562,21 @@ func (st *c17State) genCrop(r *Rng) c17Op {
 		if r.Chance(0.3) {
 			cw, ch = 0, 0 // empty rectangle inside the view
 		}
+	case 10:
+		if r.Chance(0.5) { // negative extent
+			if r.Bool() {
+				cw = -r.Range(1, 3)
+			} else {
+				ch = -r.Range(1, 3)
+			}
+		}
 	}
 	return c17Op{k: "c", l: l, t: t, w: cw, h: ch}
 }
 
 func (st *c17State) doCrop(op c17Op) {
 	nv := st.naive
+	negSize := op.w < 0 || op.h < 0
 	neg := op.l < 0 || op.t < 0
 	outData := st.absL+op.l+op.w > st.under.w || st.absT+op.t+op.h > st.under.h
 	outView := op.l+op.w > nv.w || op.t+op.h > nv.h
@@ -583,6 +592,8 @@ func (st *c17State) doCrop(op c17Op) {
 	st.emit(op, out)
 	cls := "valid"
 	switch {
+	case negSize:
+		cls = "neg-size"
 	case neg:
 		cls = "neg-origin"
 	case outData:
@@ -606,6 +617,17 @@ func (st *c17State) doCrop(op c17Op) {
 		}
 		st.src, st.naive = ns, nv.crop(op.l, op.t, op.w, op.h)
 		st.absL, st.absT = st.absL+op.l, st.absT+op.t
+	case "neg-size":
+		if out == "ok" {
+			what := Safe(func() string {
+				if _, e := ns.GetRow(0, nil); e != nil {
+					return "GetRow(0) error"
+				}
+				return fmt.Sprintf("a %dx%d view", ns.GetWidth(), ns.GetHeight())
+			})
+			st.fail("crop-neg-size-accepted", rect+" accepted; reading it: "+what)
+			st.dead = true
+		}
 	case "neg-origin", "outside-data":
 		if out == "ok" {
 			// what does the accepted source deliver?
